@@ -94,6 +94,12 @@ class Cum:
         return "cumsum(durations(%s)) + %r" % (self.src, self.base)
 
 
+class CacheMutation(Exception):
+    def __init__(self, node):
+        Exception.__init__(self, "in-place update of the memoised table")
+        self.node = node
+
+
 class Table:
     """[first, base + d1, .., base + T]"""
 
@@ -250,6 +256,33 @@ class Interp:
                 if isinstance(a, ast.Attribute) and a.attr == "duration" and norm(a.value) == norm(s.target) and self.ev(s.iter) == ("elements",):
                     self.env[c.func.value.id] = Durations("elements")
                     return
+        if isinstance(s, ast.AugAssign) and isinstance(s.target, ast.Name):
+            cur = self.env.get(s.target.id)
+            if isinstance(cur, Table) or (isinstance(cur, Cases) and any(isinstance(x, Table) for _f, x in cur.alts)):
+                # the table is the memoised object itself (the getter hands out the cache): an in-place update changes
+                # what every later query reads
+                raise CacheMutation(s)
+            self.env[s.target.id] = self.ev(ast.copy_location(ast.BinOp(left=ast.Name(id=s.target.id, ctx=ast.Load()), op=s.op, right=s.value), s))
+            return
+        if isinstance(s, ast.For) and not s.orelse and isinstance(s.iter, ast.Call) and norm(s.iter.func) == "enumerate" and len(s.iter.args) == 1 and isinstance(s.target, ast.Tuple) and len(s.target.elts) == 2 and len(s.body) == 1 and isinstance(s.body[0], ast.If) and not s.body[0].orelse:
+            # first-index scan:  idx = 0 ; for i, x in enumerate(table): if v < x: idx = i ; break   ==  argmax(v < table)
+            tb = self.ev(s.iter.args[0])
+            iv, xv = (norm(t_) for t_ in s.target.elts)
+            iff = s.body[0]
+            t = iff.test
+            if isinstance(tb, Table) and isinstance(t, ast.Compare) and len(t.ops) == 1 and len(iff.body) == 2 and isinstance(iff.body[1], ast.Break) and isinstance(iff.body[0], ast.Assign) and isinstance(iff.body[0].targets[0], ast.Name) and norm(iff.body[0].value) == iv:
+                l, r = t.left, t.comparators[0]
+                op = {ast.Lt: "<", ast.LtE: "<=", ast.Gt: ">", ast.GtE: ">="}.get(type(t.ops[0]))
+                if op is not None and (norm(r) == xv or norm(l) == xv):
+                    if norm(l) == xv:
+                        l, r = r, l
+                        op = {"<": ">", "<=": ">=", ">": "<", ">=": "<="}[op]
+                    tgt = iff.body[0].targets[0].id
+                    dflt = self.env.get(tgt)
+                    if op in ("<", "<=") and isinstance(dflt, Lin) and dflt == Lin():
+                        self.env[tgt] = Idx(Mask(self.ev(l), op, tb), 0)
+                        return
+            raise Unrecognised("loop %s" % norm(s)[:60])
         if isinstance(s, ast.If):
             pos, neg = self.cond_facts(s.test)
             a, b = Interp(self.repo, self.cls, self.tparam), Interp(self.repo, self.cls, self.tparam)
@@ -562,8 +595,13 @@ def run(repo, res, tier):
             ip.exec(s)
     except Unrecognised as e:
         raise AnalysisError("get_state_at_time_step uses a construct outside the analysed vocabulary: %s" % e)
+    except CacheMutation as cm:
+        res.bad("CYC-FRESH", "get_state_at_time_step leaves the memoised table untouched", Finding("CYC-FRESH", m, cm.node, "get_state_at_time_step: %s updates the memoised table in place" % norm(cm.node), "the table handed out by the getter is the cached object: changing it in place shifts the window starts for every later query, so repeated queries answer differently", qualname=qn))
+        ret = "mutated"
     if ret is None:
         raise AnalysisError("get_state_at_time_step has no straight-line return")
+    if ret == "mutated":
+        ret = Cases([])
     cases = ret.alts if isinstance(ret, Cases) else [([], ret)]
     for facts, rv in cases:
         lookup_case(res, m, f, qn, facts, rv, len(cases) > 1)
